@@ -23,7 +23,7 @@ func verifOrient(name string) feat.Orientation {
 func verifExons(t Transcript, k, maxOff, maxLen int) []Exon {
 	es := make([]Exon, k)
 	for i := range es {
-		es[i] = Exon{Transcript: t, Offset: verifInt("off"+string(rune('0'+i)), 0, maxOff), Length: verifInt("len"+string(rune('0'+i)), 1, maxLen)}
+		es[i] = Exon{Transcript: t, Offset: verifInt("off"+string(rune('0'+i)), verifParam("minoff"), maxOff), Length: verifInt("len"+string(rune('0'+i)), 1, maxLen)}
 	}
 	return es
 }
@@ -38,12 +38,13 @@ func VerifC20_Tiling() {
 	es := verifExons(t, k, verifParam("maxoff"), verifParam("maxlen"))
 	err := t.SetExons(es...)
 
-	// specification of acceptance: some exon starts at 0 and no two exons overlap
-	zero := false
+	// specification of acceptance: the first exon starts at 0 (the smallest offset is 0, so an
+	// exon before the transcript start is "no zero start" too) and no two exons overlap
+	lowest := es[0].Offset
 	overlap := false
 	for i := range es {
-		if es[i].Offset == 0 {
-			zero = true
+		if es[i].Offset < lowest {
+			lowest = es[i].Offset
 		}
 		for j := range es {
 			if i != j && es[i].Offset < es[j].Offset+es[j].Length && es[j].Offset < es[i].Offset+es[i].Length {
@@ -51,6 +52,7 @@ func VerifC20_Tiling() {
 			}
 		}
 	}
+	zero := lowest == 0
 	verifAssert((err == nil) == (zero && !overlap), "accepted-iff-zero-start-and-disjoint")
 	if err != nil {
 		verifAssert(len(t.Exons()) == 0, "rejected-leaves-transcript-empty")
